@@ -1,0 +1,87 @@
+//go:build verif
+
+// Contracts for the deductive checker in /verif (read only with -tags verif).
+
+package sm9
+
+// ---- parsers of externally supplied bytes: no panic for any input
+//@ func parseSignature property C13,C10
+//@   witness sig 30050401000300 3007040100030200 300704020000030100
+//@   modifies nothing
+
+// Raw C1||C3||C2 ciphertext. Assumed about caller-supplied option sets: see the EncrypterOpts
+// interface contracts below. Inputs of 4 GiB and more are out of scope (the KDF refuses such lengths
+// by panicking, sm3.Kdf).
+//@ func Decrypt property C13,C10
+//@   requires priv != nil && priv.internal != nil && len(ciphertext) <= 4000000000
+//@   heapnonnil
+//@   modifies everything
+//@ func DecryptASN1 property C13,C10
+//@   requires priv != nil && priv.internal != nil && len(ciphertext) <= 4000000000
+//@   heapnonnil
+//@   modifies everything
+//@ func UnwrapKey property C13
+//@   requires priv != nil && priv.internal != nil && 0 <= kLen && kLen <= 4294967000
+//@   ensures err == nil ==> len(result0) == kLen
+//@   heapnonnil
+//@   modifies everything
+//@ func (*EncryptPrivateKey).UnwrapKey property C13
+//@   requires priv != nil && priv.internal != nil && 0 <= kLen && kLen <= 4294967000
+//@   ensures err == nil ==> len(result0) == kLen
+//@   heapnonnil
+//@   modifies everything
+
+// assumed of every EncrypterOpts implementation (the five in enc_mode.go satisfy it when built by the
+// package constructors with a non-negative key size): the key size is non-negative and at most the
+// data length or 64 KiB
+//@ func iface:github.com/emmansun/gmsm/sm9.EncrypterOpts.GetKeySize trusted
+//@   ensures 0 <= result && (result <= len(plaintext) || result <= 65536)
+//@   modifies nothing
+//@ func iface:github.com/emmansun/gmsm/sm9.EncrypterOpts.Decrypt trusted
+//@   modifies everything
+
+//@ func UnmarshalSignMasterPrivateKeyASN1 property C13,C14
+//@   heapnonnil
+//@   modifies everything
+//@ func UnmarshalSignMasterPublicKeyASN1 property C13,C14
+//@   heapnonnil
+//@   modifies everything
+//@ func UnmarshalSignPrivateKeyASN1 property C13,C14
+//@   heapnonnil
+//@   modifies everything
+//@ func UnmarshalEncryptMasterPrivateKeyASN1 property C13,C14
+//@   heapnonnil
+//@   modifies everything
+//@ func UnmarshalEncryptMasterPublicKeyASN1 property C13,C14
+//@   heapnonnil
+//@   modifies everything
+//@ func UnmarshalEncryptPrivateKeyASN1 property C13,C14
+//@   heapnonnil
+//@   modifies everything
+
+// the block cipher factory of an option set (assumed: a factory such as sm4.NewCipher returns a
+// non-nil cipher.Block or an error)
+//@ func functype:github.com/emmansun/gmsm/sm9.newCipher trusted
+//@   params key
+//@   ensures err == nil ==> result0 != nil
+//@   modifies nothing
+
+//@ func (*XOREncrypterOpts).Decrypt property C13,C10
+//@   nullable opts
+//@   modifies key[0..len(key)]
+//@ func (*CBCEncrypterOpts).Decrypt property C13,C10
+//@   requires opts.padding != nil && opts.newCipher != nil
+//@   heapnonnil
+//@   modifies everything
+//@ func (*ECBEncrypterOpts).Decrypt property C13,C10
+//@   requires opts.padding != nil && opts.newCipher != nil
+//@   heapnonnil
+//@   modifies everything
+//@ func (*CFBEncrypterOpts).Decrypt property C13,C10
+//@   requires opts.newCipher != nil
+//@   heapnonnil
+//@   modifies everything
+//@ func (*OFBEncrypterOpts).Decrypt property C13,C10
+//@   requires opts.newCipher != nil
+//@   heapnonnil
+//@   modifies everything
